@@ -119,3 +119,24 @@ META["C16"] = {
     "note": "'All schedules the runtime produces with varying GOMAXPROCS' is not applicable (runtime not encoded); schedules are explored on the channel model. Payload equalities are solver-decided; schedules are enumerated by forking.",
     "technique": "symbolic execution of go/ssa with a channel/goroutine model, bounded schedule exploration, unwinding assertions, native replay",
 }
+
+META["C18"] = {
+    "text": "Function-level check of the real main package with the OS stubbed: parseFlags, setupEnv and runNonInteractive are executed by the engine for every script of a pool x both ways of supplying it x trailing arguments; the return code must be 0 iff vm.Execute on the same source in an equally prepared environment succeeds, 4 on a parse or run error, 2 when the file cannot be read, and the recorded standard output must be the script's own output followed by exactly one diagnostic line iff the code is non-zero. Seven runs of the real built binary serve as process-level witnesses.",
+    "design_ref": "DESIGN.md §5 C18",
+    "note": "Exit status and stdout of the process are observed only by the witness runs; os.Exit, file system and pipes are stubs in the engine. Scripts are enumerated; no solver variable is involved.",
+    "technique": "symbolic execution of go/ssa (bounded exhaustive exploration) against the library verdict, process-level witness runs",
+}
+
+META["C03"] = {
+    "text": "Lexical part: the real Scanner.Scan on every operator spelling of a reference token table followed by an arbitrary rune yields the longest-match token, literal and consumed length (solver over the rune). Literals: symbolic decimal / hexadecimal / binary digit strings run through the real scanner, the grammar's number action and the real strconv.ParseInt (interpreted from its SSA) and must denote exactly the reference value (int64), the int64 edge is accepted iff representable; quoted strings with symbolic contents and escapes denote the reference unescaping, raw strings are verbatim. Precedence: for every pair (thorough: triple) of binary operators, and the ternary shapes, the written expression and its fully parenthesised spelling (reference precedence climbing over the property's table) are parsed by the real generated parser in 5 statement contexts and must give the same tree modulo parentheses and positions.",
+    "design_ref": "DESIGN.md §5 C03",
+    "note": "Known finding (recorded): `in` is declared right-associative in the grammar (a in b in c parses as a in (b in c)); goyacc is not available to regenerate parser.go. Operator sequences are enumerated by forking.",
+    "technique": "symbolic execution of go/ssa + SMT (z3), differential of the real parser against a reference precedence climber and reference literal readers, native replay",
+}
+
+META["C11"] = {
+    "text": "Conversion lemma: the real convertReflectValueToType on symbolic int64/float64 sources (plain and interface-wrapped) for every numeric target type must give exactly the target type and Go's own conversion of the payload (solver-decided), and on a table of non-numeric pairs must convert exactly when Go does (element-wise for slices and maps, zero value for nil). Call lemma: host functions recording their arguments are called through the real call machinery in fixed/variadic x plain/spread shapes and must receive exactly the supplied arguments converted as above, and all results come back. Identity, member and method access on Go values, and script functions converted to Go func types (arguments in, result converted out, error surfacing) are checked on a pool of Go types.",
+    "design_ref": "DESIGN.md §5 C11",
+    "note": "The 'all Go signatures' quantifier is bounded to the pool; payloads are symbolic. Trusted: go/ssa, symgo reflect model (Convert, Call, MakeFunc, method sets).",
+    "technique": "symbolic execution of go/ssa + SMT (z3), differential against Go's own conversions, native replay",
+}
